@@ -127,6 +127,7 @@ def run_storage(cat, num, max_depth, cap, grace, seed, nupdates, gen, log_from=0
         return val_tok[key]
 
     seen_classes = {f: set() for f in cat}
+    probe = None
     for t in range(1, nupdates + 1):
         x = gen(t - 1)
         if all_names is None:
@@ -153,7 +154,16 @@ def run_storage(cat, num, max_depth, cap, grace, seed, nupdates, gen, log_from=0
                            "len": len(st), "nleaves_own": own_leaf_count(root) if len(set(leaves)) == len(leaves) else -1,
                            "complete": complete})
         if impute_every and t % impute_every == 0 and t > log_from:
-            for imp, mode in ((imp_s, "storage"), (imp_m, "model")):
+            # the instances imputed: the current observation, and a probe object that is the SAME dict object at every
+            # imputation (unchanged for a while, then overwritten in place with the current observation): the result may
+            # depend on the instance's content and the current trees only, never on which object was seen before
+            if probe is None:
+                probe = dict(x)
+            elif (t // impute_every) % 4 == 0:
+                probe.update(x)
+            targets = [(imp_s, "storage", x), (imp_m, "model", x), (imp_s, "storage", probe), (imp_m, "model", probe)]
+            x_cur = x
+            for imp, mode, x in targets:
                 sub = [f for f in feats if random.random() < 0.6] if t % (2 * impute_every) else []
                 n = 1 + (t // impute_every) % 3
                 model_inputs.clear()
@@ -188,4 +198,5 @@ def run_storage(cat, num, max_depth, cap, grace, seed, nupdates, gen, log_from=0
                            "x": [vtok(f, x[f]) for f in all_names],
                            "inputs": [[vtok(f, inp[f]) if f in inp else 0 for f in all_names] for inp in model_inputs],
                            "allowed": allowed, "unmodified": bool(unmod and finite)})
+            x = x_cur
     return {"cap": cap, "ev": ev, "feats": feats, "max_depth": max_depth, "grace": grace, "seed": seed}, st
